@@ -58,16 +58,16 @@ def span_catalogue(n):
     out.append(('range', {'type': 'range', 'args': [2000, 2000 + n]}, [2000.0], [1999, 2000 + n, '2000'], []))
     out.append(('range-neg', {'type': 'range', 'args': [-2, -2 + n]}, [], [-3, n], []))
     out.append(('range-step', {'type': 'range', 'args': [1, 1 + 2 * n, 2]}, [True], [2, 0], []))
-    strs = ['a', 'b', 'c', 'd', 'e', 'f'][:n]
+    strs = ['a', 'b', 'c', 'd', 'e', 'f', 'g'][:n]
     out.append(('list-str', {'type': 'list', 'labels': [L(x) for x in strs]}, [], ['zz', 0], []))
     out.append(('tuple-str', {'type': 'tuple', 'labels': [L(x) for x in strs]}, [], ['A'], []))
-    mixed = [1, 'x', (2, 3), 2.5, 0, 'y'][:n]
+    mixed = [1, 'x', (2, 3), 2.5, 0, 'y', (1,)][:n]
     out.append(('list-mixed', {'type': 'list', 'labels': [L(x) for x in mixed]}, [1.0, True, False, 0.0][:2 if n < 5 else 4],
                 ['1', (2,), 3], []))
     out.append(('numpy-int', {'type': 'numpy', 'labels': [L(x) for x in range(10, 10 + n)]}, [10.0], [9, '10'], []))
-    out.append(('numpy-str', {'type': 'numpy', 'labels': [L(x) for x in ['p', 'q', 'r', 's', 't', 'u'][:n]]}, [], ['z', 1], []))
+    out.append(('numpy-str', {'type': 'numpy', 'labels': [L(x) for x in ['p', 'q', 'r', 's', 't', 'u', 'v'][:n]]}, [], ['z', 1], []))
     out.append(('pindex-int', {'type': 'pindex', 'labels': [L(x) for x in range(3, 3 + n)]}, [3.0], [99, 'x'], []))
-    out.append(('pindex-str', {'type': 'pindex', 'labels': [L(x) for x in ['x', 'y', 'z', 'w', 'v', 'u'][:n]]}, [], ['q', 2], []))
+    out.append(('pindex-str', {'type': 'pindex', 'labels': [L(x) for x in ['x', 'y', 'z', 'w', 'v', 'u', 't'][:n]]}, [], ['q', 2], []))
     out.append(('period-Y', {'type': 'period', 'start': '2000', 'n': n, 'freq': 'Y'}, [],
                 [pd.Period('1990', freq='Y'), 7], ['2000', '1990']))
     out.append(('period-Q', {'type': 'period', 'start': '2000Q3', 'n': n, 'freq': 'Q'}, [],
@@ -75,9 +75,9 @@ def span_catalogue(n):
     out.append(('datetime-D', {'type': 'datetime', 'start': '2000-01-30', 'n': n, 'freq': 'D'}, [],
                 [pd.Timestamp('1999-01-01')], ['2000-01-31', '2000-02', '2000-01']))
     if n >= 2:
-        dup = ['a', 'b', 'a', 'c', 'b', 'a'][:n]
+        dup = ['a', 'b', 'a', 'c', 'b', 'a', 'd'][:n]
         out.append(('list-dup', {'type': 'list', 'labels': [L(x) for x in dup]}, [], ['zz'], []))
-        out.append(('numpy-dup', {'type': 'numpy', 'labels': [L(x) for x in [1, 2, 2, 3, 1, 4][:n]]}, [], [9], []))
+        out.append(('numpy-dup', {'type': 'numpy', 'labels': [L(x) for x in [1, 2, 2, 3, 1, 4, 5][:n]]}, [], [9], []))
     return out
 
 
@@ -381,7 +381,7 @@ def all_cases(ctx, nmax, steps):
     for n in range(1, nmax + 1):
         for tag, spec, equal, absent, partial in span_catalogue(n):
             flavours = ['container']
-            if rng.random() < 0.35 * ctx.scale:
+            if ctx.tier != 'quick' or rng.random() < 0.5 * ctx.scale:
                 flavours.append(rng.choice(['model', 'built', 'linker']))
             for fl in flavours:
                 for c in span_cases(fl, tag, spec, n, equal, absent, partial, steps):
@@ -395,7 +395,7 @@ def all_cases(ctx, nmax, steps):
 
 def run(ctx, rep):
     quick = ctx.tier == 'quick'
-    nmax = 4 if quick else 6
+    nmax = 4 if quick else 7
     steps = [None, 1, 2, 3]
     cases, partials = all_cases(ctx, nmax, steps)
     for k in range(0, len(cases), 200):
